@@ -67,7 +67,12 @@ impl ViMode for ViReplace {
 				self.pending_cmd.set_motion(MotionCmd(1,Motion::BackwardChar));
 				self.register_and_return()
 			}
-			_ => common_cmds(key)
+			_ => {
+				// Cursor keys and deletions are part of the session that '.' repeats
+				let cmd = common_cmds(key)?;
+				self.register_cmd(&cmd);
+				Some(cmd)
+			}
 		}
 	}
 	fn is_repeatable(&self) -> bool {
